@@ -102,6 +102,7 @@ def liesel_scenario(chk, name):
         model.auto_update = False
     Iface = lsl.GooseModel if "GooseModel" in name else gs.LieselInterface
     before = jax.tree_util.tree_map(lambda x: np.asarray(x).copy(), M.values_of(model.state))
+    settings0 = dict(auto_update=model.auto_update)
     with warnings.catch_warnings():
         warnings.simplefilter("ignore")
         used, fresh = Iface(model), Iface(model)
@@ -198,6 +199,10 @@ def liesel_scenario(chk, name):
     # non-mutation (concrete observations around the traced calls)
     if any(mutated):
         chk.violation(f"{name}:input-state-mutated", f"[{name}] update_state modified the caller's model state dict", dict(reproduced=True, note="object identity of the state entries changed during the call"))
+    settings1 = dict(auto_update=model.auto_update)
+    if settings1 != settings0:
+        chk.violation(f"{name}:user-model-settings", f"[{name}] building / using the interface changed a setting of the user's own model: {settings0} -> {settings1}",
+                      dict(reproduced=True, observed=dict(before=settings0, after=settings1), note="concrete observation around the interface construction and the traced calls"))
     after = M.values_of(model.state)
     if set(after) != set(before) or any(not np.array_equal(np.asarray(after[k]), before[k], equal_nan=True) for k in before):
         chk.violation(f"{name}:user-model-mutated", f"[{name}] the user's original model changed while the interface was used", dict(reproduced=True, note="model.state before/after differ"))
